@@ -24,15 +24,43 @@ genrule(
 '''
 
 
-def replay(ctx, idx, beh):
-    base = os.path.join(ctx.scratch, "cl%d" % idx)
+def start_http(slow):
+    """Starts the repository's HTTP cache server on a free port; returns (process, url)."""
+    import socket
+    import time
+    for _ in range(5):
+        s = socket.socket()
+        s.bind(("127.0.0.1", 0))
+        port = s.getsockname()[1]
+        s.close()
+        p = subprocess.Popen([vlib.build_httpcache(), "-d", slow, "-p", str(port), "-v", "error"], stdout=subprocess.DEVNULL,
+                             stderr=subprocess.DEVNULL)
+        for _ in range(100):
+            if p.poll() is not None:
+                break
+            try:
+                socket.create_connection(("127.0.0.1", port), timeout=0.2).close()
+                return p, "http://127.0.0.1:%d" % port
+            except OSError:
+                time.sleep(0.05)
+        p.kill()
+    raise vlib.Infra("the HTTP cache server did not start")
+
+
+def replay(ctx, idx, beh, slow_kind="cmd"):
+    base = os.path.join(ctx.scratch, "cl%d%s" % (idx, slow_kind))
     root, fast, slow, home = (os.path.join(base, x) for x in ("repo", "fast", "slow", "home"))
     for d in (os.path.join(root, "p"), fast, slow, home):
         os.makedirs(d, exist_ok=True)
+    server = None
+    if slow_kind == "http":
+        server, url = start_http(slow)
+        layer2 = "httpurl = %s\nhttpwriteable = true\n" % url
+    else:
+        layer2 = ("storecommand = cat > %s/$CACHE_KEY.tmp && mv %s/$CACHE_KEY.tmp %s/$CACHE_KEY\nretrievecommand = cat %s/$CACHE_KEY\n"
+                  % (slow, slow, slow, slow))
     with open(os.path.join(root, ".plzconfig"), "w") as f:
-        f.write("[build]\npath = /usr/local/bin:/usr/bin:/bin\n[cache]\ndir = %s\n"
-                "storecommand = cat > %s/$CACHE_KEY.tmp && mv %s/$CACHE_KEY.tmp %s/$CACHE_KEY\nretrievecommand = cat %s/$CACHE_KEY\n"
-                % (fast, slow, slow, slow, slow))
+        f.write("[build]\npath = /usr/local/bin:/usr/bin:/bin\n[cache]\ndir = %s\n%s" % (fast, layer2))
     with open(os.path.join(root, "p", "BUILD"), "w") as f:
         f.write(BUILD)
 
@@ -40,8 +68,18 @@ def replay(ctx, idx, beh):
         with open(os.path.join(root, "p", "in.txt"), "w") as f:
             f.write("content %s\n" % c)
     write(beh["init"])
-    trace, viols, builds = ["init %s" % beh["init"]], [], 0
+    trace, viols, builds = ["slow layer: %s" % slow_kind, "init %s" % beh["init"]], [], 0
     env = {"HOME": home, "PATH": "/usr/local/bin:/usr/bin:/bin", "LANG": "C"}
+    try:
+        return _steps(ctx, beh, root, fast, env, trace, viols, builds, write, slow_kind, slow)
+    finally:
+        if server is not None:
+            server.kill()
+            server.wait()
+        shutil.rmtree(base, ignore_errors=True)
+
+
+def _steps(ctx, beh, root, fast, env, trace, viols, builds, write, slow_kind, slow):
     for st in beh["steps"]:
         if st["act"] == "edit":
             write(st["c"])
@@ -72,17 +110,20 @@ def replay(ctx, idx, beh):
             if rc != 0:
                 raise vlib.Infra("plz build failed in a cache-stack history: %s" % pout[-400:])
             if any(v != want for v in got.values()):
-                viols.append(("C02 cache-stack build-output-differs-from-clean-build", dict(layers=True, behaviour=beh, trace=list(trace), want=want, got=got)))
+                viols.append(("C02 cache-stack build-output-differs-from-clean-build", dict(layers=True, behaviour=beh, slow=slow_kind, trace=list(trace), want=want, got=got)))
                 break
-    shutil.rmtree(base, ignore_errors=True)
+    if slow_kind == "http" and builds and not os.listdir(slow):
+        raise vlib.Infra("the HTTP cache server stored nothing: the second layer was not exercised")
     return viols, builds, trace
 
 
 def run_layers(ctx, replay_items=None):
     """Called from the C02 check."""
     vlib.build_plz()
+    vlib.build_httpcache()
     if replay_items is not None:
         behs = [d["behaviour"] for d in replay_items]
+        kinds = [d.get("slow", "cmd") for d in replay_items]
     else:
         vlib.tlc(ctx, "CacheLayers", "MC_CacheLayers.cfg", timeout=600)
         fl = vlib.tlc(ctx, "CacheLayers", "MC_CacheLayers_flaw.cfg", allow_violation=True)
@@ -93,12 +134,14 @@ def run_layers(ctx, replay_items=None):
         rest = sorted((b for b in r.behaviours if not b["trap"]), key=lambda b: json.dumps(b, sort_keys=True))
         nt, nr = (24, 24) if ctx.quick else (len(traps), 800)
         behs = rng.sample(traps, min(nt, len(traps))) + rng.sample(rest, min(nr, len(rest)))
+        # the slow layer is the command cache or the repository's own HTTP cache server (tools/http_cache), alternately
+        kinds = ["cmd" if i % 2 == 0 else "http" for i in range(len(behs))]
         ctx.extra["cache_stack_histories_enumerated_by_tlc"] = len(r.behaviours)
     with ThreadPoolExecutor(max_workers=12) as ex:
-        futs = [ex.submit(replay, ctx, i, b) for i, b in enumerate(behs)]
-        for b, f in zip(behs, futs):
+        futs = [ex.submit(replay, ctx, i, b, k) for i, (b, k) in enumerate(zip(behs, kinds))]
+        for b, k, f in zip(behs, kinds, futs):
             viols, builds, trace = f.result()
-            ctx.count("layers:" + json.dumps(b, sort_keys=True), nontrivial=True, sample=dict(cache_stack=True, trace=trace) if b.get("trap") else None)
+            ctx.count("layers:" + k + json.dumps(b, sort_keys=True), nontrivial=True, sample=dict(cache_stack=True, trace=trace) if b.get("trap") else None)
             ctx.traces_validated += builds
             for sig, det in viols:
                 ctx.violation(sig, det)
